@@ -7,6 +7,7 @@ CONSTANTS
   B0s <- B0T
   Modes <- ModesAll
   MaxSweeps = 3
+  MinExtra = 1
   Ranks = "any"
   Mutant = "none"
   Emit = FALSE
